@@ -58,6 +58,19 @@ pub fn main_table(args: &[String]) {
     }
     for c in [MessageClass::Request, MessageClass::Indication, MessageClass::Success, MessageClass::Error] {
         for m in 0..4096u16 {
+            // a panic while encoding is an answer (no field value): recorded as such, the judge reports it
+            let enc = std::panic::catch_unwind(|| enc_record(c, m));
+            let j = enc.unwrap_or_else(|_| json!({"k": "enc", "class": class_name(c), "method": m, "f": 1u32 << 20, "bytes": [], "panic": true}));
+            writeln!(out, "{}", j).unwrap();
+        }
+    }
+    tid_records(&mut out, seed);
+    out.flush().unwrap();
+}
+
+fn enc_record(c: MessageClass, m: u16) -> serde_json::Value {
+    {
+        {
             let t = MessageType::from_class_method(c, m);
             let bytes = t.to_bytes();
             let mut w = [0u8; 2];
@@ -79,9 +92,12 @@ pub fn main_table(args: &[String]) {
                 }
             }
             let f = if bytes == w && built[..2] == w && big_ok && via_parser == Some((c, m, c, m)) { u16::from_be_bytes(w) as u32 } else { 1 << 20 };
-            writeln!(out, "{}", json!({"k": "enc", "class": class_name(c), "method": m, "f": f, "bytes": bytes})).unwrap();
+            json!({"k": "enc", "class": class_name(c), "method": m, "f": f, "bytes": bytes})
         }
     }
+}
+
+fn tid_records(out: &mut impl Write, seed: u64) {
     let mut rng = StdRng::seed_from_u64(seed);
     let mut wides: Vec<u128> = vec![0, 1, u128::MAX, (1u128 << 96) - 1, 1u128 << 96, (1u128 << 96) + 1, 0x2112A442u128 << 96,
         0xffff_ffffu128 << 96, 1u128 << 95, 1u128 << 127, 0x0102_0304_0506_0708_090a_0b0c_0d0e_0f10];
@@ -110,5 +126,4 @@ pub fn main_table(args: &[String]) {
         let w: u128 = TransactionId::generate().into();
         writeln!(out, "{}", json!({"k": "gen", "wide": w.to_be_bytes().to_vec()})).unwrap();
     }
-    out.flush().unwrap();
 }
